@@ -195,8 +195,17 @@ func runC04(c *core.Ctx) {
 				sent = true
 			default:
 				synctest.Wait()
+				if len(handlerDone) > 0 {
+					// the handler has returned (it refused the block or was cancelled) and reads no
+					// more: the rest of a long stream is never consumed
+					sent = true
+					break
+				}
 				time.Sleep(time.Millisecond)
 			}
+		}
+		if len(handlerDone) > 0 {
+			break
 		}
 		if i%16 == 15 {
 			synctest.Wait()
